@@ -85,8 +85,9 @@ def plan(tier, seed):
                          sizes=([1000, 2000] if kind == "DRR" else [1, 2]), N=0, gaps="G3", order=0, map="id", endurance=3000))
     # every configuration once more with long fixed workloads (state that only breaks after hundreds of packets)
     nlong = explore.add_long(cfgs, 300 if quick else 800, skip=lambda c: c.get("endurance"))
+    ndebug = explore.add_debug_variants(cfgs)      # the same with every element constructed with debug=True
     return {"cfgs": cfgs, "budget": None,
-            "bound": ("%d long fixed workloads (periodic arrival patterns); " % nlong) + ("one fixed workload of 3000 packets per scheduler; N<=%d full menu (21/packet), N<=%d reduced menu%s; 6 schedulers x tables x rates x creation order; "
+            "bound": ("%d long fixed workloads (periodic arrival patterns); %d configurations repeated with debug=True; " % (nlong, ndebug)) + ("one fixed workload of 3000 packets per scheduler; N<=%d full menu (21/packet), N<=%d reduced menu%s; 6 schedulers x tables x rates x creation order; "
                      "monitor in/excl; flow->class maps identity/all-to-one/swap" % (nfull, nfull + 1, "" if quick else ", N<=6 on {same,+1}; 3 flows N<=4"))}
 
 
